@@ -301,7 +301,7 @@ def run(ctx):
     ctx.cov["edges_replayed_on_impl"] = total_edges if not ctx.quick else 0
     trace = os.path.join(ctx.scratch, "trace.ndjson")
     args = ["-schedules", sched_path, "-out", trace, "-seed", str(ctx.seed)]
-    args += ["-cap", "14", "-random", "3", "-rlen", "7"] if ctx.quick else ["-cap", "0", "-random", "40", "-rlen", "10"]
+    args += ["-cap", "10", "-random", "2", "-rlen", "7"] if ctx.quick else ["-cap", "0", "-random", "40", "-rlen", "10"]
     p = vlib.run_harness(binary, args, timeout=3000)
     out = json.loads(p.stdout.strip().splitlines()[-1])
     ctx.stage("real-run", **out)
